@@ -299,3 +299,12 @@ Proof.
   - intros (H1 & H2 & (v & r & ->) & H4).
     split; [split; [split; [exact H1|exact H2]|apply Z.eqb_refl]|exact H4].
 Qed.
+
+(* Known finding F18: the empty request is let through BEFORE the position is compared with the end of the
+   file, so a position beyond the end is not rejected when nothing is inserted or deleted. *)
+Lemma empty_request_beyond_end_refuted :
+  exists s t pos, WF s /\ 0 <= t < MaxU32 /\ len s < pos <= MaxU32 /\ update t pos 0 0 s = Ok (s, []).
+Proof.
+  exists [(0, 0); (10, TreeEnd)], 1, 12. split; [apply wfb_WF; vm_compute; reflexivity|].
+  split; [unfold MaxU32; lia|]. split; [unfold MaxU32; cbn; lia|]. vm_compute. reflexivity.
+Qed.
